@@ -20,10 +20,10 @@ Definition no_lease : lease_info :=
 (* libif.Ifconfig as handed to SetIface and to the hook *)
 Record netconf := { nc_ip : N; nc_mask : bytes; nc_router : option N; nc_mtu : N; nc_dns : list N; nc_domain : bytes; nc_lease : Z }.
 
-(* net.IP.DefaultMask: class A/B/C by the first octet (D/E give nil = empty) *)
+(* net.IP.DefaultMask: class A below 128, class B below 192, class C for everything else *)
 Definition default_mask (ip : N) : bytes :=
   let a := (ip / 16777216)%N in
-  if (a <? 128)%N then [255; 0; 0; 0]%N else if (a <? 192)%N then [255; 255; 0; 0]%N else if (a <? 224)%N then [255; 255; 255; 0]%N else [].
+  if (a <? 128)%N then [255; 0; 0; 0]%N else if (a <? 192)%N then [255; 255; 0; 0]%N else [255; 255; 255; 0]%N.
 
 (* IPMask.Size() returns bits = 0 for a nil or non-canonical mask (ones must be contiguous from the top) *)
 Definition mask_u32 (m : bytes) : N := match m with [a; b; c; d] => be32 a b c d | _ => 0%N end.
